@@ -35,6 +35,8 @@ DECIDED = [
     "ORD-3 (XML half) parse_cardinality(str(c)) == c for every normal-form cardinality c",
     "ENC-1 the XML parser is built without an encoding override (the reader honours the encoding the file declares)",
     "ENUM-1 DType members render as their plain name under str() (the writer renders every attribute with str(val))",
+    "ID-3 (C04 PROV-2) the constructors keep a given id as str(uuid.UUID(id)): the id that was saved is the id after loading",
+    "GET-1 the getters the writer reads return the object's own state (no inherited value is written as if it were set)",
     "READ-1 (shared with C02) the XML reader only constructs: no finalize / merge / clean on what it read",
     "CSV-1 from_csv removes the list brackets only when to_csv's opening and closing bracket are both present",
     "RET-1 (shared with C05) the dtype converters return normal forms: what is written as text is what the reader converts back",
@@ -216,6 +218,10 @@ def run(prog, rep):
     # --------------------------------------------------------------- ORDER-1
     compute_before_open(prog, rep, [wf], "ORDER-1")
 
+    from ..report import import_verdicts
+    import_verdicts(prog, rep, "C04", ("PROV-2",), "ID-3",
+                    "the readers hand the stored id to the constructors: the only transformation on the way is the canonical spelling of the same UUID")
+    ct.own_state_getters(prog, rep, "GET-1")
     # ---------------------------------------------------------------- READ-1
     from .c02 import reader_constructs_only
     reader_constructs_only(prog, rep, [m for _, m in sorted(reader.methods.items())], "READ-1")
